@@ -204,6 +204,12 @@ def writeUInt : Buf → Nat → Option Buf
 def bytes (b : Buf) : List Nat := b.bitBlock.bytes
 end Buf
 
+/-- The `BitViewType` object a generated structure hands to the view of a `w`-bit field:
+the `BitBlock` itself for a field of a `struct` (`direct`, then `o = 0` and `w = c`), or
+`bit_block.GetOffsetStorage(o, w)` for a field at bit `o` of a `bits`. -/
+def fieldBuf (direct : Bool) (bb : BitBlock) (o w : Nat) : Buf :=
+  if direct then .direct bb else .offset (bb.offsetStorage o w)
+
 /-! ### Views -/
 
 /-- Scalar view kinds.  `enum uw signed`: `EnumView` of an `enum class : [u]int<uw>_t`. -/
